@@ -1,4 +1,5 @@
 import PytaskProofs.Lemmas.EnginePersist
+import PytaskProofs.Lemmas.EngineQuiet
 /-!
 # C17 — persisted tasks are not executed while products exist and stay quiet afterwards
 
@@ -137,6 +138,82 @@ theorem C17_quiet_build (F : BodyFn) (P : Project) (cfg1 cfg2 : Cfg) (w : World)
   · exact absurd h (hr1 o)
   · exact h
 
+/-- **C17_quiet_build_full.** `C17_quiet_build` with its state hypothesis discharged. Two consecutive
+builds of the same project, the second (any options except `force`, any accepted schedule) started on
+the world the first one left — no edits in between; no task writes a task's source file
+(`SrcSafe`). If the first build was real (not a dry run) and reported `t` PERSISTENCE, and in the
+second build `t` is handed out, is eligible under `-k` / `-m`, is not in the closure of a user-skipped
+task, and **no task-ancestor of `t` executes, fails or (dry run) would be executed**, then the second
+build reports `t` SKIP_UNCHANGED and does not execute it.
+
+Why the neighbours of `t` cannot have moved: a body writes its own products only; products have a
+unique producer (`create_dag` accepted the graph); the producer of a dependency of `t` — or of a
+product of an `after` target — is a task-ancestor of `t`; ancestors were all handed out before `t`
+in build 1, and do not execute in build 2. If an ancestor *does* execute in build 2 it may rewrite a
+dependency of `t`, and `t` is then rightly persisted again (example below). When build 1 was complete
+and all-good and nothing was edited, no task executes in the unforced build 2 at all (property C03,
+`C03_repeat`), so the ancestor hypothesis holds for every task. -/
+theorem C17_quiet_build_full (F : BodyFn) (P : Project) (cfg1 cfg2 : Cfg) (w : World) (picks1 picks2 : List Nat)
+    (r1 r2 : Result) (g : G) (marks1 marks2 : List Nat)
+    (hd1 : createDag P cfg1 = .ok (g, marks1)) (hb1 : build F P cfg1 w picks1 = .ok r1)
+    (hd2 : createDag P cfg2 = .ok (g, marks2)) (hb2 : build F P cfg2 r1.w picks2 = .ok r2)
+    (hsrc : SrcSafe P) (t : Nat)
+    (hdry : cfg1.dry = false) (hpers : (t, Outcome.persistence) ∈ r1.reports)
+    (hforce : cfg2.force = false) (ht2 : t ∈ picks2)
+    (hel : Eligible g cfg2 t) (hnsk : ¬ ∃ a, UserSkipped P a ∧ (t = a ∨ t ∈ taskDesc g a))
+    (hanc : ∀ a ∈ taskAnc g t, a ∉ r2.log ∧ (a, Outcome.fail) ∉ r2.reports ∧ (a, Outcome.wouldBeExecuted) ∉ r2.reports) :
+    (t, Outcome.skipUnchanged) ∈ r2.reports ∧ (∀ o, (t, o) ∈ r2.reports → o = Outcome.skipUnchanged) ∧ t ∉ r2.log := by
+  -- build 1: t was picked; the session of its protocol
+  obtain ⟨_, _, sf1, _, _, hs1, hnd1, hord1, hr1, _, hw1, _⟩ := build_run hd1 hb1
+  have ht1 : t ∈ picks1 := by
+    refine Classical.byContradiction fun hn => ?_
+    have := (hs1.reports_notin hn (o := Outcome.persistence)).1 (hr1 ▸ hpers)
+    simp at this
+  obtain ⟨pre1, post1, hpk1⟩ := List.append_of_mem ht1
+  obtain ⟨s1, spec, s1', h1, hf, hid, hpost1, hpre1n, hpost1n, _, _, hw1', _, hrep1, _, hrr1⟩ := build_at hd1 hb1 hpk1
+  subst hid
+  obtain ⟨⟨hns, hnf⟩, hpc⟩ := protocol_persistence_report ((hrr1 _).1 hpers) (hrep1 _)
+  obtain ⟨⟨hp, hnw1⟩, hex, hch⟩ := hpc
+  -- build 2
+  obtain ⟨pre2, post2, hpk2⟩ := List.append_of_mem ht2
+  obtain ⟨s2, spec2, s2', h2, hf2, _, hpost2, hpre2n, _, hrr2, hll2, _, _, _, _, _⟩ := build_at hd2 hb2 hpk2
+  rw [hf] at hf2; cases hf2
+  have hstep2 : Steps F P g cfg2 s2 (spec.id :: post2) s2' := .cons hf hpost2
+  have hrep_mono : ∀ x ∈ s2.reports, x ∈ r2.reports := fun x hx => hrr2 ▸ hstep2.reports_mono x hx
+  have hlog_mono : ∀ x ∈ s2.log, x ∈ r2.log := fun x hx => hll2 ▸ hstep2.log_mono x hx
+  have hmo : MarksOrigin g s2 := h2.marksOrigin ⟨by simp, by simp⟩
+  have hnb : ¬ Blocked P g cfg2 spec.id := fun hb => hb.elim (fun h => h hel) (fun h => hnsk h)
+  have hns2 : ¬ SkipCond s2 spec := by
+    have hbl := (h2.blocked_inv (cfg := cfg2) (s := { w := r1.w, skipMarks := marks2 }) (by
+      intro x hx
+      have : x ∈ deselected P g cfg2 := by rw [← (createDag_ok hd2).2.1]; exact hx
+      exact .inl (mem_deselected.1 this).2)).1
+    rintro (h | h | h)
+    · exact hnsk ⟨spec.id, ⟨spec, hf, .inl h⟩, .inl rfl⟩
+    · exact hnsk ⟨spec.id, ⟨spec, hf, .inr h⟩, .inl rfl⟩
+    · exact hnb (hbl _ h)
+  have hnf2 : spec.id ∉ s2.failMarks := by
+    intro h
+    obtain ⟨a, ha, hda⟩ := hmo.1 _ h
+    exact (hanc a (mem_taskDesc_iff_mem_taskAnc.1 hda)).2.1 (hrep_mono _ ha)
+  have hnw2 : spec.id ∉ s2.wbeMarks := by
+    intro h
+    obtain ⟨a, ha, hda⟩ := hmo.2 _ h
+    exact (hanc a (mem_taskDesc_iff_mem_taskAnc.1 hda)).2.2 (hrep_mono _ ha)
+  -- the states t looks at have not moved since its protocol in build 1
+  have hsame : ∀ v ∈ neighbours g spec.id, stateOf P s2.w v = stateOf P s1.w v := by
+    intro v hv
+    have e2 := h2.nbr_frame hd2 hsrc hpre2n (fun u _ hu hl => (hanc u hu).1 (hlog_mono u hl)) v hv
+    have e1 := hpost1.nbr_frame hd1 hsrc hpost1n (fun u hu hua _ => by
+      have hin : u ∈ pre1 := hord1 pre1 spec.id post1 hpk1 u hua
+      rw [hpk1] at hnd1
+      exact (List.nodup_append.1 hnd1).2.2 u hin u (List.mem_cons_of_mem _ hu) rfl) v hv
+    obtain ⟨_, _, c3, _⟩ := C17_persist F P g cfg1 s1 spec hp hns hnf hnw1 hex hch
+    simp only [] at e2
+    rw [e2, hw1', e1, stateOf_fs c3]
+  exact C17_quiet_build F P cfg1 cfg2 w picks1 picks2 r1 r2 g marks1 marks2 hd1 hb1 hd2 hb2 pre1 post1 pre2 post2 spec.id
+    hpk1 hpk2 s1 s2 spec hf h1 h2 hdry hp hns hnf hex hch hforce hns2 hnf2 (fun _ => hnw2) hsame
+
 /-- **C17_real_nowbe.** A real (non-dry) build never carries `would_be_executed` marks: in every
 session reached from the start of the build the mark list is empty. So the extra hypothesis of
 `C17_persist` is vacuous outside dry runs, and `C17_persist_build` / `C17_quiet_build` hold for real
@@ -228,6 +305,22 @@ example : ∃ r1 r2 r3, build c17F c17P {} c17W [0, 1] = .ok r1 ∧
     r2.reports = [(0, .success), (1, .persistence)] ∧ r2.log = [0] ∧ lookup r2.w.fs 21 = some 777 ∧
     r3.reports = [(0, .skipUnchanged), (1, .skipUnchanged)] ∧ r3.log = [] :=
   ⟨_, _, _, rfl, rfl, rfl, rfl, rfl, rfl, rfl, rfl, rfl⟩
+
+/-- `C17_quiet_build_full`, hypotheses on concrete data, and its boundary: the product of the persist
+task 1 is tampered → build 2 persists it; build 3 (no edits, no ancestor executes) reports it
+unchanged; then the input of the *ancestor* 0 is edited → in build 4 task 0 executes and rewrites the
+dependency of task 1, which is rightly persisted again; build 5 is quiet. -/
+example : SrcSafe c17P ∧ ∃ r1 r2 r3 r4 r5 g, createDag c17P {} = .ok (g, []) ∧ taskAnc g 1 = [0] ∧
+    build c17F c17P {} c17W [0, 1] = .ok r1 ∧
+    build c17F c17P {} ⟨Engine.insert r1.w.fs 21 777, r1.w.db⟩ [0, 1] = .ok r2 ∧
+    build c17F c17P {} r2.w [0, 1] = .ok r3 ∧
+    build c17F c17P {} ⟨Engine.insert r3.w.fs 10 6, r3.w.db⟩ [0, 1] = .ok r4 ∧
+    build c17F c17P {} r4.w [0, 1] = .ok r5 ∧
+    r2.reports = [(0, .skipUnchanged), (1, .persistence)] ∧
+    r3.reports = [(0, .skipUnchanged), (1, .skipUnchanged)] ∧ r3.log = [] ∧
+    r4.reports = [(0, .success), (1, .persistence)] ∧ r4.log = [0] ∧
+    r5.reports = [(0, .skipUnchanged), (1, .skipUnchanged)] :=
+  ⟨by unfold SrcSafe; decide, _, _, _, _, _, _, rfl, by decide, rfl, rfl, rfl, rfl, rfl, rfl, rfl, rfl, rfl, rfl, rfl⟩
 
 /-- `C17_missing`: the product of the persist task was deleted — it runs like any other task. -/
 example : ∃ r1 r2, build c17F c17P {} c17W [0, 1] = .ok r1 ∧
